@@ -37,7 +37,8 @@ def shard(shard_i, nshards, tier, seed):
     A = [z3.Int(f'g1r{i}') for i in range(2)]
     Bv = [z3.Int(f'g2r{i}') for i in range(2)]
     V = z3.Int('variant')
-    variants = ['plain', 'terminal_conflict', 'same_terminal', 'terminal_named_like_pair', 'extra_nonterminal_named_like_pair']
+    variants = ['plain', 'terminal_conflict', 'same_terminal', 'terminal_named_like_pair', 'extra_nonterminal_named_like_pair',
+                'edges_inserted_in_reverse_order', 'terminal_named_like_other_nonterminal']
     mine = [k for k in range(len(C1)) if k % nshards == shard_i]
     with lib.Functions() as fns:
         for a0 in mine:
@@ -58,6 +59,10 @@ def shard(shard_i, nshards, tier, seed):
                     g1['terminals']['<X,Y>'] = ['L']
                 elif var == 'extra_nonterminal_named_like_pair':
                     g2['extra_nts'] = ['<X,Y,Z>', '<X,Y>']
+                elif var == 'edges_inserted_in_reverse_order':
+                    g2['reverse_edges'] = True
+                elif var == 'terminal_named_like_other_nonterminal':
+                    g1['terminals']['Z'] = ['L']          # g2 has a nonterminal Z; input nonterminals never occur in the conjunction
                 return g1, g2, R.check(fggs, g1, g2)
             for p in eng.run(body):
                 if p.exc is not None:
